@@ -1678,6 +1678,210 @@ def inline_helpers(tu, fd, fname, offs, rounds=12, done=None):
     raise AnalysisError("%s(): more than %d helper calls to inline" % (fname, rounds))
 
 
+def inline_private(tu, fd, fname, names, offs, rounds=8):
+    """Callers of the decoder may be cut into a public parser and private helpers (`static`, only ever called): the helper
+    that holds the decoder call then works on the caller's message cursor through `&cursor` / `&remaining`.  What the
+    property says about the call (octets readable, state awaited) is a fact about the parser as a whole, so the body of
+    such a helper replaces its call on the AST of the caller.  Exact under these conditions (anything else: AnalysisError):
+      * the call is a statement of its own: `h(...);`, `x = h(...);`, `T x = h(...);` (no narrowing of the result)
+      * the helper is not variadic / recursive, has no static locals and does not take the address of a label
+      * its parameters are never written and never have their address taken; a parameter whose argument is `&v`
+        (v a scalar local of the caller) is used only as `*p`, which becomes v; every other argument is free of side effects,
+        calls and memory reads, is not narrowed by the parameter type and does not name such a v
+      * locals and labels are renamed apart; `return e;` becomes `result = e; goto <end of the body>;`.
+    -> [(helper name, text of the replaced call)]"""
+    done, serial = [], 0
+    for _ in range(rounds):
+        site = None
+        for c in walk(tu.body(fd)):
+            if kind(c) != "CallExpr":
+                continue
+            cal = strip(kids(c)[0])
+            rd = cal.get("referencedDecl", {}) if kind(cal) == "DeclRefExpr" else {}
+            h = tu.functions.get(rd.get("name")) if rd.get("kind") == "FunctionDecl" and rd.get("name") in names else None
+            if h is not None and any(kind(x) == "CompoundStmt" for x in kids(h)):
+                site = (c, h)
+                break
+        if site is None:
+            return done
+        c, h = site
+        hname = h.get("name")
+
+        def refuse(why):
+            raise AnalysisError("%s(): call `%s` of the private helper %s() cannot be analysed as part of its caller: %s" % (
+                fname, ctext(c)[:60], hname, why))
+        if h is fd or any(kind(x) == "DeclRefExpr" and x.get("referencedDecl", {}).get("name") == hname for x in walk(tu.body(h))):
+            refuse("recursion")
+        # ---- the call site
+        top = c
+        while tu.parent.get(id(top)) is not None and kind(tu.parent[id(top)]) in SKIP:
+            top = tu.parent[id(top)]
+        par = tu.parent.get(id(top))
+        target, decl_stmt = None, None
+        slot = _stmt_slot(tu, top)
+        if slot is None and kind(par) == "BinaryOperator" and par.get("opcode") == "=" and kids(par)[1] is top and \
+                kind(strip(kids(par)[0])) == "DeclRefExpr" and strip(kids(par)[0]).get("referencedDecl", {}).get("kind") == "VarDecl":
+            st = par
+            while tu.parent.get(id(st)) is not None and kind(tu.parent[id(st)]) in SKIP:
+                st = tu.parent[id(st)]
+            slot = None if _narrowing(top) else _stmt_slot(tu, st)
+            target = copy.deepcopy(strip(kids(par)[0]))
+        elif slot is None and kind(par) == "VarDecl" and kind(tu.parent.get(id(par))) == "DeclStmt":
+            ds = tu.parent[id(par)]
+            slot = _stmt_slot(tu, ds)
+            later = kids(ds)[kids(ds).index(par) + 1:]
+            if slot is None or kind(slot[0]) != "CompoundStmt" or any(kids(x) for x in later) or _narrowing(top) or \
+                    "[" in par.get("type", {}).get("qualType", ""):
+                slot = None
+            else:
+                target, decl_stmt = _ref(par), ds
+        if slot is None:
+            refuse("it is not a statement of its own (`h(...);`, `x = h(...);`, `T x = h(...);`)")
+        # ---- the helper
+        hbody = tu.body(h)
+        params = tu.fparams(h)
+        args = kids(c)[1:]
+        if h.get("variadic") or "..." in h.get("type", {}).get("qualType", "") or len(params) != len(args):
+            refuse("variadic helper / argument count")
+        pids = {p.get("id"): k for k, p in enumerate(params)}
+        own = {x.get("id"): x for x in walk(tu.body(fd)) if kind(x) == "VarDecl"}
+        byref = {}
+        for k, a in enumerate(args):
+            e = strip(a, casts=True)
+            v = strip(kids(e)[0]) if kind(e) == "UnaryOperator" and e.get("opcode") == "&" else None
+            if v is not None:
+                vd = own.get(v.get("referencedDecl", {}).get("id")) if kind(v) == "DeclRefExpr" else None
+                if vd is None or "[" in vd.get("type", {}).get("qualType", "") or vd.get("storageClass") in ("static", "extern"):
+                    refuse("argument `%s` is not the address of a scalar local of the caller" % ctext(a)[:40])
+                if "".join(params[k].get("type", {}).get("qualType", "").split()) != "".join(
+                        (vd.get("type", {}).get("qualType", "") + "*").split()):
+                    refuse("parameter `%s` is not a pointer to the type of `%s`" % (params[k].get("name"), vd.get("name")))
+                byref[k] = v
+            elif not _arg_ok(a):
+                refuse("argument `%s` for `%s` has side effects, reads memory or is narrowed" % (ctext(a)[:40], params[k].get("name")))
+        refd = {v.get("referencedDecl", {}).get("id") for v in byref.values()}
+        if len(refd) != len(byref):
+            refuse("one local is handed over by address twice")
+        for k, a in enumerate(args):
+            if k not in byref and any(kind(x) == "DeclRefExpr" and x.get("referencedDecl", {}).get("id") in refd for x in walk(a)):
+                refuse("argument `%s` names a local that is also handed over by address" % ctext(a)[:40])
+        derefs = {}
+        for x in walk(hbody):
+            k = kind(x)
+            if k == "AddrLabelExpr":
+                refuse("it takes the address of a label")
+            if k == "VarDecl" and x.get("storageClass") in ("static", "extern"):
+                refuse("it has a static local")
+            tgt = None
+            if (k == "BinaryOperator" and x.get("opcode") == "=") or k == "CompoundAssignOperator" or \
+                    (k == "UnaryOperator" and x.get("opcode") in ("++", "--", "&")):
+                tgt = strip(kids(x)[0])
+            if tgt is not None and kind(tgt) == "DeclRefExpr" and tgt.get("referencedDecl", {}).get("id") in pids:
+                refuse("it modifies (or takes the address of) its parameter `%s`" % tgt["referencedDecl"].get("name"))
+            if k == "UnaryOperator" and x.get("opcode") == "*":
+                t = strip(kids(x)[0])
+                if kind(t) == "DeclRefExpr" and pids.get(t.get("referencedDecl", {}).get("id")) in byref:
+                    derefs[id(t)] = x
+        for x in walk(hbody):
+            if kind(x) == "DeclRefExpr" and pids.get(x.get("referencedDecl", {}).get("id")) in byref and id(x) not in derefs:
+                refuse("its parameter `%s` (the address of a local of the caller) is used otherwise than as `*%s`" % (
+                    x["referencedDecl"].get("name"), x["referencedDecl"].get("name")))
+        whole = {}          # id of the node `*p` -> the caller's local it stands for
+        for x in walk(hbody):
+            if kind(x) == "DeclRefExpr" and id(x) in derefs:
+                whole[id(derefs[id(x)])] = byref[pids[x["referencedDecl"]["id"]]]
+        rets = [x for x in walk(hbody) if kind(x) == "ReturnStmt"]
+        for r in rets:
+            if kids(r) and _narrowing(kids(r)[0]):
+                refuse("its result is narrowed by the return type")
+            if target is not None and not kids(r):
+                refuse("its result is used but it returns no value")
+        # ---- the copy
+        taken = {x.get("name") for x in walk(fd) if kind(x) in ("VarDecl", "ParmVarDecl", "LabelStmt")}
+        taken |= {x.get("referencedDecl", {}).get("name") for x in walk(fd) if kind(x) == "DeclRefExpr"}
+        serial += 1
+        shift = offs.get(hname, 0) - offs.get(fname, 0)
+        names_, ids = {}, {}
+        end_id, jumps = "%s.end%d" % (h.get("id"), serial), [0]
+        last = kids(hbody)[-1] if kids(hbody) else None
+
+        def fresh(nm):
+            cand, k = "%s__%s" % (hname, nm), 1
+            while cand in taken:
+                k += 1
+                cand = "%s__%s%d" % (hname, nm, k)
+            taken.add(cand)
+            return cand
+        for x in walk(hbody):           # labels may be used before they are declared
+            if kind(x) == "LabelStmt":
+                names_[x.get("declId")] = fresh(x.get("name"))
+                ids[x.get("declId")] = "%s.inl%d" % (x.get("declId"), serial)
+
+        def sh(l):
+            return l + shift if l is not None else None
+
+        def rw(n):
+            if not isinstance(n, dict) or not n:
+                return n
+            if id(n) in whole:
+                a = copy.deepcopy(whole[id(n)])
+                return {"kind": "ParenExpr", "type": a.get("type", {}), "valueCategory": "lvalue", "_line": sh(n.get("_line")), "inner": [a]}
+            if kind(n) == "DeclRefExpr":
+                rd = n.get("referencedDecl", {})
+                if rd.get("id") in pids and rd.get("kind") == "ParmVarDecl":
+                    a = copy.deepcopy(args[pids[rd["id"]]])
+                    return {"kind": "ParenExpr", "type": a.get("type", {}), "valueCategory": a.get("valueCategory"),
+                            "_line": sh(n.get("_line")), "inner": [a]}
+            if kind(n) == "ReturnStmt":
+                out = []
+                rv = rw(kids(n)[0]) if kids(n) else None
+                if target is not None:
+                    out.append({"kind": "BinaryOperator", "opcode": "=", "type": target.get("type", {}), "valueCategory": "prvalue",
+                                "_line": sh(n.get("_line")), "inner": [copy.deepcopy(target), rv]})
+                elif rv is not None:
+                    out.append(rv)
+                if n is not last:
+                    jumps[0] += 1
+                    out.append({"kind": "GotoStmt", "targetLabelDeclId": end_id, "_line": sh(n.get("_line"))})
+                return {"kind": "CompoundStmt", "_line": sh(n.get("_line")), "inner": out}
+            m = {k: v for k, v in n.items() if k != "inner"}
+            if m.get("_line") is not None:
+                m["_line"] = sh(m["_line"])
+            if kind(n) == "VarDecl":
+                names_[n.get("id")] = fresh(n.get("name"))
+                ids[n.get("id")] = "%s.inl%d" % (n.get("id"), serial)
+                m["name"], m["id"] = names_[n["id"]], ids[n["id"]]
+            elif kind(n) == "LabelStmt":
+                m["name"], m["declId"] = names_[n.get("declId")], ids[n.get("declId")]
+            elif kind(n) == "GotoStmt":
+                if n.get("targetLabelDeclId") not in ids:
+                    refuse("it jumps to a label that is not its own")
+                m["targetLabelDeclId"] = ids[n.get("targetLabelDeclId")]
+            elif kind(n) == "DeclRefExpr":
+                rd = dict(n.get("referencedDecl", {}))
+                if rd.get("id") in names_:
+                    rd["name"], rd["id"] = names_[rd["id"]], ids[rd["id"]]
+                m["referencedDecl"] = rd
+            if "inner" in n:
+                m["inner"] = [rw(x) for x in n["inner"]]
+            return m
+        stmts = [rw(x) for x in kids(hbody)]        # declarations precede their uses in source order
+        if jumps[0]:
+            stmts.append({"kind": "LabelStmt", "declId": end_id, "name": fresh("end"), "_line": c.get("_line"),
+                          "inner": [{"kind": "NullStmt", "_line": c.get("_line")}]})
+        block = {"kind": "CompoundStmt", "_line": c.get("_line"), "_inlined": hname, "inner": stmts}
+        site_text = ctext(par if target is not None and decl_stmt is None else c)[:80]
+        cont, i = slot
+        if decl_stmt is not None:
+            par["inner"] = [x for x in par.get("inner", []) if x is not top]
+            par.pop("init", None)
+            cont["inner"][i:i + 1] = [decl_stmt, block]
+        else:
+            cont["inner"][i] = block
+        _reparent(tu, fd, tu.parent.get(id(fd)))
+        done.append((hname, site_text))
+    raise AnalysisError("%s(): more than %d calls of private helpers to inline" % (fname, rounds))
+
 
 class Dec:
     """Roles of the decoder's parameters and the classified memory accesses."""
@@ -4433,8 +4637,9 @@ def _emit_members(node, real, macros, ind):
     return out
 
 
-def synth_prelude(L, H, body, fname, mac_names, mac_lines):
-    """declarations for everything the sliced function `fname` uses but does not declare"""
+def synth_prelude(L, H, body, fname, mac_names, mac_lines, also=()):
+    """declarations for everything the sliced function `fname` (and the helpers `also` defined in `body`) uses but
+    does not declare"""
     txt = blank_strings(strip_comments(body))
     # struct types and the variables declared with them
     trees = {}
@@ -4457,7 +4662,7 @@ def synth_prelude(L, H, body, fname, mac_names, mac_lines):
         mem = _emit_members(trees[nm], real, macros, 1)
         pre.append("struct %s { %s };" % (nm, " ".join(mem) if mem else "char vsa_opaque_;"))
     # callees and upper-case constants
-    declared = set(C_KEYWORDS) | set(mac_names) | {"LOGP", fname}
+    declared = set(C_KEYWORDS) | set(mac_names) | {"LOGP", fname} | set(also)
     funs, consts, labels = [], [], set(re.findall(r"\bcase\s+([A-Z][A-Z0-9_]*)\s*:", txt))
     for m in re.finditer(r"(?<![\w.>])([A-Za-z_]\w*)\b(\s*\()?", txt):
         nm = m.group(1)
@@ -4502,14 +4707,22 @@ def file_scope_array(src, name):
     return "extern %s %s[%d];" % (" ".join(m.group(1).split()), name, ext) if ext else None
 
 
-def caller_slice(L, H, rel, fname, hdr_clean):
-    """FM of function `fname` of layer23 file `rel`, parsed behind a synthesised prelude"""
+def caller_slice(L, H, rel, fname, hdr_clean, inline=()):
+    """FM of function `fname` of layer23 file `rel`, parsed behind a synthesised prelude.
+    `inline`: private helpers of the file (callee first) whose bodies replace their calls (inline_private)"""
     with open(L.unit(rel), "r", encoding="utf-8", errors="surrogateescape") as f:
         src = f.read()
     body, first = slice_function(src, fname)
+    own_body, own_first, helpers = body, first, []
+    for hn in inline:
+        ht, hfirst = slice_function(src, hn)
+        helpers.append((hn, ht, hfirst))
+    if helpers:
+        body = "\n".join([h[1] for h in helpers] + [own_body])
+        first = min([own_first] + [h[2] for h in helpers])
     mac, mac_lines, _ = const_macros(hdr_clean, src, first)
     ulines, unames = util_macros(L, body)
-    pre, real_used, funs = synth_prelude(L, H, body, fname, set(mac) | unames, mac_lines + ulines)
+    pre, real_used, funs = synth_prelude(L, H, body, fname, set(mac) | unames, mac_lines + ulines, also=[h[0] for h in helpers])
     tmp = tempfile.mkdtemp(prefix="vsa-c20-", dir=os.environ.get("TMPDIR") or "/var/tmp")
     try:
         path = os.path.join(tmp, "caller.c")
@@ -4535,7 +4748,19 @@ def caller_slice(L, H, rel, fname, hdr_clean):
         shutil.rmtree(tmp, ignore_errors=True)
     fd = tu.func(fname)
     L.fn(rel, fname)
-    fm = FM(tu, fd, line_off=first - (len(pre) + 1), dup_ok=True)
+    # real line = slice line + offset of the function the line belongs to (the helpers stand in front of `fname`)
+    offs, at = {}, len(pre) + 1
+    for (hn, ht, hfirst) in helpers:
+        offs[hn] = hfirst - at
+        at += ht.count("\n") + 1
+    offs[fname] = own_first - at
+    for (hn, site) in (inline_private(tu, fd, fname, [h[0] for h in helpers], offs) if helpers else []):
+        L.fn(rel, hn)
+        L.ob("C20.R0", rel, fname, "private helper %s() is analysed as part of its caller: its body replaces the call `%s` (value "
+             "parameters stand for side-effect-free arguments, `*p` for the local whose address is handed over, locals and "
+             "labels renamed apart, every return becomes the assignment of the result and a jump behind the body)" % (hn, site),
+             "inlined", "inlined", True)
+    fm = FM(tu, fd, line_off=offs[fname], dup_ok=True)
     fm.real_structs = real_used
     fm.opaque_callees = set(funs)
     return fm
@@ -4635,13 +4860,29 @@ def r6_readable(L, tier):
     for rel in caller_files(L, tier):
         cf = CFile(L, rel)
         for fname in sorted({fi[0] for (fi, pos, args) in cf.calls(FN)}):
-            fm = slice_of(L, H, rel, fname, hdr)
-            for (n, c) in fm.calls:
-                if ctext(kids(c)[0]) != FN:
-                    continue
-                nsites += 1
-                r6_site(L, R, fm, rel, fname, n, c)
+            nsites += r6_function(L, R, H, cf, rel, fname, hdr, (fname,))
     L.floor(R, "call sites of %s analysed for readable bitmap octets" % FN, nsites, 2)
+
+
+def r6_function(L, R, H, cf, rel, fname, hdr, chain):
+    """the decoder calls inside `fname` (chain[:-1]: private helpers analysed as a part of it).  A private helper that cannot be
+    classified on its own -- its cursor belongs to its callers -- is analysed as a part of each function that calls it."""
+    fm = slice_of(L, H, rel, fname, hdr, inline=chain[:-1])
+    k = 0
+    try:
+        for (n, c) in fm.calls:
+            if ctext(kids(c)[0]) == FN:
+                r6_site(L, R, fm, rel, fname, n, c)     # obligations are recorded once every shape question is settled
+                k += 1
+        return k
+    except AnalysisError as e:
+        hosts = private_helper(cf, fname) if k == 0 and len(chain) < 3 else []
+        if not hosts:
+            raise
+        try:
+            return sum(r6_function(L, R, H, cf, rel, h, hdr, chain[:-1] + (fname, h)) for h in hosts)
+        except AnalysisError as e2:
+            raise AnalysisError("%s; as a part of its caller: %s" % (e, e2))
 
 
 def r6_site(L, R, fm, rel, fname, n, c):
@@ -4861,9 +5102,23 @@ def remaining_of(fm, fname, P):
     return Rn, len(adv)
 
 
-def anchor(fm, fname, P, wp, Rn, wr):
-    """initial pairing: P = msg->tail and R = len - sizeof(*msg), tail being the trailing flexible member"""
+def anchor(fm, fname, P, wp, Rn, wr, depth=0):
+    """initial pairing: P = msg->tail and R = len - sizeof(*msg), tail being the trailing flexible member; or
+    P = P0 and R = R0, copies of another cursor / counter pair (P0, R0) of the function (the working copies of an inlined
+    helper) that still hold their own initial pairing where the copies are taken: the initialisation is the only definition of
+    P0 that reaches the copy of P0, and likewise for R0 (both are expressions of never-written parameters, so the order of the
+    two copies does not matter)"""
     pv = strip(wp.val, casts=True)
+    rv = strip(wr.val)
+    if kind(pv) == "DeclRefExpr" and kind(rv) == "DeclRefExpr" and depth < 3:
+        P0, R0 = pv.get("referencedDecl", {}).get("name"), rv.get("referencedDecl", {}).get("name")
+        if all(v in fm.locals and v not in fm.dups and v not in fm.addr for v in (P0, R0)) and \
+                qt_of(fm.locals[P0]) == qt_of(fm.locals[P]) and qt_of(fm.locals[R0]) == qt_of(fm.locals[Rn]):
+            dp, dr = fm.reaching_defs(P0, wp.node), fm.reaching_defs(R0, wr.node)
+            if len(dp) != 1 or len(dr) != 1 or "undef" in dp + dr or dp[0].how != "init" or dr[0].how != "init":
+                raise AnalysisError("%s(): cursor `%s` / counter `%s` are copies of `%s` / `%s`, which were already changed (or "
+                                    "are not yet set) where the copies are taken" % (fname, P, Rn, P0, R0))
+            return anchor(fm, fname, P0, dp[0], R0, dr[0], depth + 1)
     ok = kind(pv) == "MemberExpr" and pv.get("isArrow") and kind(strip(kids(pv)[0])) == "DeclRefExpr" and \
         strip(kids(pv)[0]).get("referencedDecl", {}).get("kind") == "ParmVarDecl"
     if not ok:
@@ -4917,13 +5172,29 @@ def caller_files(L, tier):
 
 # ============================================== callers: both inputs present
 
-def slice_of(L, H, rel, fname, hdr):
+def slice_of(L, H, rel, fname, hdr, inline=()):
     """caller_slice, parsed once per run"""
     memo = L.__dict__.setdefault("_c20_slices", {})
-    key = (rel, fname)
+    key = (rel, fname) + tuple(inline)
     if key not in memo:
-        memo[key] = caller_slice(L, H, rel, fname, hdr)
+        memo[key] = caller_slice(L, H, rel, fname, hdr, inline=tuple(inline))
     return memo[key]
+
+
+def private_helper(cf, name):
+    """`name` is a function of the file with internal linkage that is only ever called (its address is not taken): it runs
+    as a part of the functions of this file that call it, nowhere else.  -> names of these callers ([] if not private)"""
+    try:
+        text, _ = slice_function(cf.src, name)
+    except AnalysisError:
+        return []
+    head = blank_strings(strip_comments(text)).split("(", 1)[0]
+    if not re.search(r"\bstatic\b", head):
+        return []
+    for m in re.finditer(r"\b%s\b" % re.escape(name), cf.clean):
+        if not re.match(r"\s*\(", cf.clean[m.end():]) or cf.clean[:m.start()].rstrip().endswith(("&", "->", ".")):
+            return []
+    return sorted({fi[0] for (fi, pos, args) in cf.calls(name)} - {name})
 
 
 _STORE_OPS = r"(?:=(?!=)|\+\+|--|[-+*/%&|^]=|<<=|>>=)"
@@ -5342,8 +5613,11 @@ def r9_ready(L, tier):
     H = HeaderIndex(L)
     cf = CFile(L, F_SYS)
     nsites, nflags, nruns, ncplx = 0, 0, 0, 0
-    for pname in sorted({fi[0] for (fi, pos, args) in cf.calls(FN)}):
-        fm = slice_of(L, H, F_SYS, pname, hdr)
+    work = [(pname,) for pname in sorted({fi[0] for (fi, pos, args) in cf.calls(FN)})]
+    while work:
+        chain = work.pop(0)
+        pname = chain[-1]
+        fm = slice_of(L, H, F_SYS, pname, hdr, inline=chain[:-1])
         reqs, cplx = [], []
         for (n, c) in fm.calls:
             if ctext(kids(c)[0]) != FN:
@@ -5355,9 +5629,22 @@ def r9_ready(L, tier):
                         cplx.append(r)
                 elif (r["var"], r["pol"], r["term"]) not in [(x["var"], x["pol"], x["term"]) for x in reqs]:
                     reqs.append(r)
+        callers = sorted({fi[0] for (fi, pos, args) in cf.calls(pname)} - {pname})
+        # a private helper (static, only ever called) awaits the state as a part of the functions that call it: when none of
+        # them stores an awaited member, the parser that the establishing function re-runs is the caller with the helper's
+        # body in the place of the call
+        hosts = private_helper(cf, pname) if reqs and len(chain) < 3 else []
+        if hosts:
+            members = {r["path"].split(".")[-1] for r in reqs}
+            stores = [gn for gn in callers for w in slice_of(L, H, F_SYS, gn, hdr).memwrites
+                      if kind(strip(kids(w.ast)[0])) == "MemberExpr" and strip(kids(w.ast)[0]).get("name") in members]
+            if not stores:
+                nsites -= sum(1 for (n, c) in fm.calls if ctext(kids(c)[0]) == FN)
+                work += [chain[:-1] + (pname, h) for h in hosts]
+                continue
         nflags += len(reqs)
         ncplx += len(cplx)
-        for gname in sorted({fi[0] for (fi, pos, args) in cf.calls(pname)} - {pname}):
+        for gname in callers:
             g = slice_of(L, H, F_SYS, gname, hdr)
             runs = [(n, c) for (n, c) in g.calls if ctext(kids(c)[0]) == pname]
             L.stage(r9_rerun, L, R, cf, fm, pname, g, gname, runs, cplx)
